@@ -32,13 +32,19 @@ struct Ctx {
     sum: Summary,
     shards: CoqShards,
     coq_budget: usize,
+    per_op: std::collections::HashMap<u32, usize>,
     rng: Rng,
 }
 
 impl Ctx {
     /// Register a case for the Coq model: run_case op a b must equal expect.
     fn coq(&mut self, op: u32, a: &[u128], b: &[u128], expect: &[u128], cj: Value, force: bool) {
-        if !force && self.shards.len() >= self.coq_budget { return; }
+        // one budget per kind of case, so that the large enumerated families do not crowd out the others
+        let used = self.per_op.entry(op).or_insert(0);
+        // (a rANS table case costs ~0.5 s of coqc: two 256-entry lists and the three normalisation passes)
+        let limit = match op { 0 | 1 => self.coq_budget * 4 / 15, 5 => self.coq_budget * 2 / 15, 4 => self.coq_budget / 12, 2 => self.coq_budget / 25, _ => self.coq_budget / 90 };
+        if !force && *used >= limit { return; }
+        *used += 1;
         let term = format!("({}, {}, {}, {})", op, coq_n_list(a.iter().cloned()), coq_n_list(b.iter().cloned()), coq_n_list(expect.iter().cloned()));
         let mut cj = cj;
         cj["coq_op"] = json!(op);
@@ -649,6 +655,8 @@ fn legacy_records_case(cx: &mut Ctx, period: usize, seed: u64, ops: &[Vec<u64>])
         }
     }
     for k in kinds_used { cx.sum.dist(&format!("legacy_record_kind={}", k)); }
+    let recs: std::cell::RefCell<Vec<(usize, CompressionStrategy, usize, Vec<u8>)>> = std::cell::RefCell::new(vec![]);
+    let stream_out: std::cell::RefCell<Vec<u8>> = std::cell::RefCell::new(vec![]);
     let res = guarded(|| {
         let dict = SuffixArrayDictionary::new(&dict_text, SuffixArrayDictionaryConfig::default()).map_err(|e| format!("setup: {}", e))?;
         if dict.dictionary_text() != &dict_text[..] { return Err("setup: dictionary text differs from training".to_string()); }
@@ -657,9 +665,12 @@ fn legacy_records_case(cx: &mut Ctx, period: usize, seed: u64, ops: &[Vec<u64>])
         let mut stream = Vec::new();
         for (p, st) in &parse {
             let want = match st { CompressionStrategy::Literal { length } => *length as usize, CompressionStrategy::Local { length, .. } => *length as usize, CompressionStrategy::Global { length, .. } => *length as usize };
+            let before = stream.len();
             let adv = c.verif_apply_strategy(&x, *p, *st, &mut stream).map_err(|e| format!("writer refused {:?}: {}", st, e))?;
+            recs.borrow_mut().push((*p, *st, adv, stream[before..].to_vec()));
             if adv != want { return Ok(Some(format!("writer advanced {} for {:?}", adv, st))); }
         }
+        *stream_out.borrow_mut() = stream.clone();
         let mut y = Vec::new();
         match c.decompress(&stream, &mut y) {
             Ok(()) if y == x => Ok(None),
@@ -667,6 +678,24 @@ fn legacy_records_case(cx: &mut Ctx, period: usize, seed: u64, ops: &[Vec<u64>])
             Err(e) => Ok(Some(format!("decompress of the record stream = Err({})", e))),
         }
     });
+    // model tie (small cases only): the bytes of every record, and what decompress makes of the stream
+    if x.len() <= 700 {
+        let xs: Vec<u128> = x.iter().map(|&b| b as u128).collect();
+        for (p, st, adv, bytes) in recs.borrow().iter().take(6) {
+            let (k, p1, p2, p3) = match st {
+                CompressionStrategy::Literal { length } => (0u128, *length as u128, 0, 0),
+                CompressionStrategy::Local { distance, length, match_type } => (1, *distance as u128, *length as u128, *match_type as u8 as u128),
+                CompressionStrategy::Global { dict_offset, length, .. } => (2, *dict_offset as u128, *length as u128, 0),
+            };
+            let mut exp = vec![*adv as u128]; exp.extend(bytes.iter().map(|&b| b as u128));
+            cx.coq(4, &[*p as u128, k, p1, p2, p3], &xs, &exp, cj.clone(), false);
+        }
+        let st = stream_out.borrow();
+        if !st.is_empty() && matches!(res, Ok(Ok(None))) {
+            let mut exp = vec![1u128]; exp.extend(xs.iter().cloned());
+            cx.coq(5, &st.iter().map(|&b| b as u128).collect::<Vec<_>>(), &dict_text.iter().map(|&b| b as u128).collect::<Vec<_>>(), &exp, cj.clone(), false);
+        }
+    }
     match res {
         Err(p) => cx.sum.fail(cell, None, cj, &format!("panicked: {}", p)),
         Ok(Err(e)) if e.starts_with("setup") => cx.sum.dist("legacy_setup_refused"),
@@ -674,6 +703,49 @@ fn legacy_records_case(cx: &mut Ctx, period: usize, seed: u64, ops: &[Vec<u64>])
         Ok(Ok(Some(msg))) => cx.sum.fail(cell, None, cj, &msg),
         Ok(Ok(None)) => {}
     }
+}
+
+/// arbitrary (record-shaped, then damaged) byte streams through PaZipCompressor::decompress: ties the
+/// model's reader to the code on truncated records, unknown type bytes and bad distances as well
+fn legacy_raw(cx: &mut Ctx, stream: &[u8]) {
+    let cell = "pazip/legacy_decode_raw";
+    let cj = json!({"cell": cell, "data": stream});
+    cx.sum.eval(cell, &format!("lraw {:?}", stream), stream.len() >= 2);
+    let dict_text: Vec<u8> = TEXT.to_vec();
+    let r = guarded(|| {
+        let dict = SuffixArrayDictionary::new(&dict_text, SuffixArrayDictionaryConfig::default()).ok()?;
+        let pool = SecureMemoryPool::new(SecurePoolConfig::new(4096, 1024, 8)).ok()?;
+        let mut c = PaZipCompressor::new(dict, PaZipCompressorConfig::default(), pool).ok()?;
+        let mut y = Vec::new();
+        Some(c.decompress(stream, &mut y).map(|_| y).ok())
+    });
+    let a: Vec<u128> = stream.iter().map(|&b| b as u128).collect();
+    let d: Vec<u128> = dict_text.iter().map(|&b| b as u128).collect();
+    match r {
+        Err(_) => cx.sum.dist("legacy_raw_panic"),
+        Ok(None) => {}
+        Ok(Some(None)) => { cx.sum.dist("legacy_raw_err"); cx.coq(5, &a, &d, &[0], cj, false); }
+        Ok(Some(Some(y))) => { cx.sum.dist("legacy_raw_ok"); let mut exp = vec![1u128]; exp.extend(y.iter().map(|&b| b as u128)); cx.coq(5, &a, &d, &exp, cj, false); }
+    }
+}
+fn rand_legacy_stream(r: &mut Rng) -> Vec<u8> {
+    let mut s = vec![];
+    for _ in 0..r.range(1, 6) {
+        let t = if r.chance(1, 10) { r.range(8, 255) as u8 } else { r.below(8) as u8 };
+        s.push(t);
+        match t {
+            1 => { s.extend_from_slice(&(r.below(130) as u16).to_le_bytes()); s.extend_from_slice(&(r.below(20) as u16).to_le_bytes()); }
+            2 => { s.push(r.next() as u8); s.push(r.below(40) as u8); }
+            3 => { s.push(r.below(6) as u8); s.push(r.below(40) as u8); }
+            4 => { s.extend_from_slice(&(r.below(12) as u16).to_le_bytes()); s.push(r.below(40) as u8); }
+            5 => { s.extend_from_slice(&(r.below(12) as u32).to_le_bytes()); s.push(r.below(40) as u8); }
+            6 => { s.extend_from_slice(&(r.below(12) as u16).to_le_bytes()); s.extend_from_slice(&(r.below(300) as u16).to_le_bytes()); }
+            7 => { s.extend_from_slice(&(r.below(12) as u32).to_le_bytes()); s.extend_from_slice(&(r.below(300) as u32).to_le_bytes()); }
+            _ => { let n = r.below(6) as u8; s.push(n); let d = r.bytes(n as usize); s.extend_from_slice(&d); }
+        }
+    }
+    if r.chance(1, 3) { let k = r.below(s.len() as u64) as usize; s.truncate(k.max(1)); }
+    s
 }
 
 fn simd_lz77_case(cx: &mut Ctx, x: &[u8]) {
@@ -724,6 +796,7 @@ fn run_one(cx: &mut Ctx, c: &Value) {
             pazip_case(cx, c["preset"].as_u64().unwrap_or(0) as usize, c["dict_kind"].as_u64().unwrap_or(0), &ps, &bytes_of(&c["train"]))
         }
         "simd_lz77/inherent" => simd_lz77_case(cx, &bytes_of(&c["data"])),
+        "pazip/legacy_decode_raw" => legacy_raw(cx, &bytes_of(&c["data"])),
         "pazip/legacy_records" => {
             let ops: Vec<Vec<u64>> = c["ops"].as_array().map(|a| a.iter().map(|o| o.as_array().map(|v| v.iter().map(|x| x.as_u64().unwrap_or(0)).collect()).unwrap_or_default()).collect()).unwrap_or_default();
             legacy_records_case(cx, c["period"].as_u64().unwrap_or(1) as usize, c["seed"].as_u64().unwrap_or(0), &ops)
@@ -737,7 +810,8 @@ pub fn run(args: &Args) {
     let mut cx = Ctx {
         sum: Summary::new("C02", "corpus; PA-Zip match lists: every kind at min/max/min-1/max+1 of each field and at the variable-length thresholds, all ordered pairs of kinds, random lists of length 0..40, random bytes through decode_matches; every Algorithm of the factory x 10 payload families (incompressible, text, runs around 33/34, near and far periods, skewed, all symbols) x 7 training relations (same, unrelated, single byte, subset ...); hybrid selector and rANS table against the model; adaptive and real-time front ends as operation histories with algorithm / mode switches and passed / distant deadlines; PA-Zip compressor presets x dictionary builders x payload sequences; a case is non-trivial when the payload has >= 2 bytes or the list >= 2 matches; distinct = distinct canonical case text"),
         shards: CoqShards::new(HEADER, 300),
-        coq_budget: if args.thorough { 6000 } else { 1200 },
+        coq_budget: if args.thorough { 6000 } else { 1500 },
+        per_op: std::collections::HashMap::new(),
         rng: Rng::new(args.seed),
     };
     if let Some(f) = &args.replay {
@@ -930,6 +1004,12 @@ pub fn run(args: &Args) {
             if rep == 0 { legacy_records_case(&mut cx, p, seed, &[vec![1, lens[pi % lens.len()]]]); }
             legacy_records_case(&mut cx, p, seed, &ops);
         }
+    }
+    for _ in 0..(if th { 1500 } else { 150 }) {
+        let mut r = cx.rng.clone();
+        let st = rand_legacy_stream(&mut r);
+        cx.rng = r;
+        legacy_raw(&mut cx, &st);
     }
     // a dictionary larger than 64 KiB (offsets beyond u16), payload cut from its tail; and an input
     // beyond the multithreading threshold
